@@ -389,12 +389,22 @@ func updateStatusConditionsFromOwnedObject(
 			continue
 		}
 
+		// The object is not under our control, its status may have any shape.
+		condType, typeOK := condMap["type"].(string)
+		condStatus, statusOK := condMap["status"].(string)
+		if !typeOK || !statusOK {
+			return apimachineryerrors.NewBadRequest("malformed condition")
+		}
+		// reason and message are optional for custom resources
+		condReason, _ := condMap["reason"].(string)
+		condMessage, _ := condMap["message"].(string)
+
 		newCond := metav1.Condition{
-			Type:               condMap["type"].(string),
-			Status:             metav1.ConditionStatus(condMap["status"].(string)),
+			Type:               condType,
+			Status:             metav1.ConditionStatus(condStatus),
 			ObservedGeneration: objectTemplate.ClientObject().GetGeneration(),
-			Reason:             condMap["reason"].(string),
-			Message:            condMap["message"].(string),
+			Reason:             condReason,
+			Message:            condMessage,
 		}
 		meta.SetStatusCondition(objectTemplate.GetConditions(), newCond)
 	}
